@@ -307,6 +307,63 @@ def run(db: DB, rep: Report) -> None:
                   "index variable is renamed to its partition level, the others keep a name no loop binds)" %
                   (f.short, norm(lost[0][0])[:70] if lost else "", norm(lost[0][1].iter)[:40] if lost else ""))
 
+    # ---- N14: the update reads <tensor>_val only when every tensor was walked to its values ----
+    rep.rule("N14", "the update is emitted only after a check that no tensor is left at an un-iterated rank", 1)
+    n_n14 = 0
+    for f in db.all_functions(["teaal.trans.hifiber."]):
+        for c in walk_no_nested(f.node):
+            if not (isinstance(c, ast.Call) and isinstance(c.func, ast.Attribute) and c.func.attr == "make_update"):
+                continue
+            n_n14 += 1
+            st = c
+            while not isinstance(st, ast.stmt):
+                st = st.parent
+            _, _, blk = paths.block_of(st)
+            before = blk[:blk.index(st)]
+            guarded = False
+            for b_ in before:
+                for r_ in [x for x in ast.walk(b_) if isinstance(x, ast.Raise)]:
+                    lp_ = [p_ for p_ in paths.parents(r_, f.node) if isinstance(p_, ast.For)]
+                    if not lp_ or "get_tensors" not in paths.called_names(
+                            [paths.resolve_flow(lp_[0].iter, lp_[0], f.node, depth=2)]):
+                        continue
+                    tests = [norm(paths.resolve_flow(a, t, f.node, depth=2))
+                             for t, pol in paths.guards(r_, stop=f.node) for a, p_ in paths.conjuncts(t, pol)]
+                    if any(".peek()" in t_ for t_ in tests):
+                        guarded = True
+            rep.check("N14", guarded, db.loc(c), f.short, "update:all-tensors-walked",
+                      "make_update() is preceded by 'raise unless tensor.peek() is None' over all tensors",
+                      "%s emits the update without checking that every tensor has been walked to its values: "
+                      "when two ranks of one tensor become available in the same loop (I[q + s, s], A[m, m]) one "
+                      "of them is never looked up, and the update reads <tensor>_val, which nothing binds" % f.short)
+    if n_n14 < 1:
+        raise AnalysisError("no call of make_update() found in teaal/trans/hifiber.py (N14)")
+
+    # ---- N13: a variable named after a loop rank is the variable that loop binds -------------
+    rep.rule("N13", "a coordinate variable read for a rank of the loop order is taken from "
+             "LoopOrder.get_iter_ranks (a flattened loop binds one variable per flattened rank)", 1)
+    n_n13 = 0
+    for f in db.all_functions(["teaal.trans."]):
+        for n in walk_no_nested(f.node):
+            if not (isinstance(n, ast.Call) and norm(n.func) in ("EVar", "PVar") and n.args):
+                continue
+            a = n.args[0]
+            if not (isinstance(a, ast.Call) and isinstance(a.func, ast.Attribute) and a.func.attr == "lower"
+                    and isinstance(a.func.value, ast.Name)):
+                continue
+            nms, exprs = paths.backward_slice(f.node, [a.func.value.id], with_control=False)
+            calls = paths.called_names(exprs)
+            if not ("get_loop_order" in calls and "get_ranks" in calls):
+                continue
+            n_n13 += 1
+            rep.check("N13", "get_iter_ranks" in calls, db.loc(n), f.short, "loop-var:" + norm(n)[:40],
+                      "%s names a variable obtained through get_iter_ranks" % norm(n)[:40],
+                      "%s reads a variable named after a rank of the loop order (%s): the loop over a flattened "
+                      "rank binds (k, m), not km, so the emitted program reads a name that nothing binds" %
+                      (f.short, norm(n)[:50]))
+    if n_n13 < 1:
+        raise AnalysisError("no coordinate variable derived from the loop order found (N13)")
+
     # ---- N12: extents named in a shape= argument are extents the user supplies ----------
     rep.rule("N12", "a shape= argument names the root of a rank only if the rank does not stem from a "
              "flattening (else the product of its constituents' extents)", 2)
@@ -497,6 +554,12 @@ def mutants(db: DB):
         M("clone starts from current ranks", col,
           "                final_tensor = Tensor(\n                    output.root_name(), output.get_init_ranks())",
           "                final_tensor = Tensor(\n                    output.root_name(), output.get_ranks())", "N5"),
+        M("revert F19 fix (update emitted for a tensor left at an un-iterated rank)", "teaal/trans/hifiber.py",
+          "                        if rank is not None:\n                            raise ValueError(",
+          "                        if False:\n                            raise ValueError(", "N14"),
+        M("revert F18 fix (eviction key named after the flattened rank)", col,
+          "                iter_ranks = self.program.get_loop_order().get_iter_ranks(\n                    loop_rank)\n                key.extend(EVar(iter_rank.lower())\n                           for iter_rank in iter_ranks)",
+          "                key.append(EVar(loop_rank.lower()))", "N13"),
         M("revert F11 fix (shape names the concatenated rank)", "teaal/trans/header.py",
           "            args.append(TransUtils.build_shape(shape))", "            args.append(TransUtils.build_shape(unpart_ranks))",
           "N12"),
